@@ -50,6 +50,25 @@ def build_jaq():
     return JAQ
 
 
+JAQ_HOOK_TARGET = os.path.join(WORK, 'jaq-hook-target')
+JAQ_HOOK = os.path.join(JAQ_HOOK_TARGET, 'release', 'jaq')
+
+
+def build_jaq_hooked():
+    """The jaq binary with the verification hooks of /repo switched on (--cfg jaq_verif)."""
+    env = dict(ENV, CARGO_TARGET_DIR=JAQ_HOOK_TARGET, RUSTFLAGS='--cfg jaq_verif',
+               CARGO_PROFILE_RELEASE_DEBUG_ASSERTIONS='true',
+               CARGO_PROFILE_RELEASE_OVERFLOW_CHECKS='true',
+               CARGO_PROFILE_RELEASE_STRIP='false',
+               CARGO_PROFILE_RELEASE_CODEGEN_UNITS='16',
+               CARGO_PROFILE_RELEASE_OPT_LEVEL='1')
+    r = sh(['cargo', 'build', '--release', '--offline', '-p', 'jaq'], cwd='/repo', env=env,
+           stdout=subprocess.PIPE, stderr=subprocess.STDOUT, text=True)
+    if r.returncode != 0:
+        raise ToolError('hooked jaq build failed:\n' + r.stdout[-4000:])
+    return JAQ_HOOK
+
+
 def build_all():
     build_harness()
     build_jaq()
